@@ -29,7 +29,13 @@ Pre8 (the precondition every obligation is stated under):
 3. BOUNDED STAND-IN (replay/c08_models.py): shipped recipes x generated models through the public API; any exception is a failure and is
    attributed to its census site through the traceback; a failure refutes that site's obligation with the failing model as replay.
 4. Known findings: class exclusion as in props/C15.py (witness replayed every run; the site obligation is re-decided under the exclusion:
-   every natively failing input at the site must belong to the class, and the function-level argument outside the class must hold)."""
+   every natively failing input at the site must belong to the class, and the function-level argument outside the class must hold).
+   Entry format (known_findings.json, property C08):
+     {"id": "...", "property": "C08", "status": "known", "what": "...", "class": "<words>",
+      "class_predicate": "divergent-consumer-parameters" | "repeated-operand-requantized",          (machine-checkable form: replay/c08_models.classes_of)
+      "witness": {"recipe": "file:default_a8w8_recipe.json", "spec": {"ops": [["ADD", 0, 0], ["CONCATENATION", 0, 1]], "outs": [2]}, "n_samples": 1, "seed": 0},
+      "obligations": ["C08/params_generator.ParamsGenerator._check_buffer_sharing/raise@1:RuntimeError"]}
+5. The LiteRT step (allocate + invoke of the returned model) is exercised as a by-product and reported as NOTE (clause of C01, not of C08)."""
 import ast, json, os, sys, time, copy
 from vlib import core, effects
 from contracts import c08_census as CC
@@ -119,6 +125,7 @@ def gate_totality(X):
         n = 0
         for rid, tab in F['resolution'].items():
             for k, row in tab.items():
+                if k not in F['possible_op_keys']: continue          # op keys come from TFL_OP_CODE_TO_NAME or from the virtual INPUT / OUTPUT operators
                 for scope, v in row.items():
                     n += 1
                     if 'error' in v: bad.append(('resolve', rid, dict(op_key=k, scope=scope, **v['error'])))
@@ -142,13 +149,14 @@ def rule_gates(X, site):
         return core.UNKNOWN, 'callgraph-gates+exhaustive-native', f'a gate is not total on its finite input space: {kind} {rid} {str(info)[:200]}'
     prot = site['fn'] not in C.reach_escaping(exc, cut={GATE_LOAD})
     return core.PROVED, 'callgraph-gates+exhaustive-native', (f'every path on which a {exc} raised here could reach the API passes RecipeManager.load_quantization_recipe or .get_quantization_configs; both evaluated natively: '
-            f'{len(X.F["recipes"])} shipped recipes load unchanged, {n} resolutions (recipe x op key x 3 scopes; every shipped regex is the literal ".*") return' + ('; at resolution time the call is additionally enclosed in try/except ValueError' if prot else ''))
+            f'{len(X.F["recipes"])} shipped recipes load unchanged, {n} resolutions (recipe x op key of TFL_OP_CODE_TO_NAME + INPUT/OUTPUT x 3 scopes; every shipped regex is the literal ".*") return' + ('; at resolution time the call is additionally enclosed in try/except ValueError' if prot else ''))
 
 def dispatch_total(X):
     def go():
         bad = []; n = 0
         for rid, d in X.F['dispatch'].items():
             for k, e in d.items():
+                if k not in X.F['possible_op_keys']: continue
                 for name, v in e.items():
                     n += 1
                     if isinstance(v, dict): bad.append((rid, k, name, v['error']))
@@ -378,16 +386,20 @@ def live_reach(X):
                 r, q = t.split(':', 1); tg.add((r, q))
             dyn[(rel, line, col)] = tg
         registry_targets = set()
-        for (rel, line, col), tg in dyn.items():
-            if rel in (AMA, CAL, PG) or True:
-                if any(('materialize_' in q or q.endswith('check_op_quantization_config') or 'calibrate' in q or 'init_qsvs' in q) for _, q in tg): registry_targets |= tg
+        for tg in dyn.values():
+            if any(('materialize_' in q or q.endswith('check_op_quantization_config') or 'calibrate' in q or 'init_qsvs' in q) for _, q in tg): registry_targets |= tg
         dead = registry_targets - live
+        # edges of DYNAMIC call sites (registry look-ups) are restricted to the live targets; static calls keep all their targets
+        out_edges = {}
+        for (caller, line, col), callees in A.site_edges.items():
+            cs = set(callees)
+            if (caller[0], line, col) in dyn: cs -= dead
+            out_edges.setdefault(caller, set()).update(cs)
         seen = set(C.roots); st = list(seen)
         while st:
             k = st.pop()
-            for c, prot, _ in C.edges.get(k, ()):
-                if c in seen or c in dead: continue
-                seen.add(c); st.append(c)
+            for c in out_edges.get(k, ()):
+                if c not in seen: seen.add(c); st.append(c)
         return seen, sorted(dead), sorted(live)
     return X.memo('live', go)
 
@@ -544,6 +556,9 @@ def decide_sites(C, F, reached, z3_tables, rep=None):
         except LookupError: pass
         if rep is not None and fn is not None and not C.overrides: rep.fn(fn)
         rule = rule_for(s); t0 = time.time()
+        if rule is finding_site and not reached.get(s['id']):
+            # graph-dependent site with no unreachability argument that the native search does not reach (e.g. after a repair): reported like the UNREACHED sites, not an obligation
+            listed.append(s); continue
         clause = f'`{s["text"][:110]}` (line {s["line"]}) is unreachable under Pre8, or its {s["exc"]} cannot escape to load_quantization_recipe / calibrate / quantize; enclosing tests: {guards(s)[-2:]}'
         if rule is None:
             st, be, det = core.UNKNOWN, 'census', 'NEW raise site: no unreachability argument is registered for it'
@@ -611,7 +626,7 @@ def witness_fails(k, site_id, C):
     from replay import c08_models as M
     w = k.get('witness') or {}
     try:
-        r = M.run_case_with_classes(w['recipe'], w['spec'], w.get('n_samples', 1), w.get('seed', 0))
+        r = M.run_case_with_classes(w['recipe'], M.norm(w['spec']), w.get('n_samples', 1), w.get('seed', 0), interp=False)      # no LiteRT step in the parent process
     except Exception as e: return False, f'witness could not run: {type(e).__name__}: {e}'
     s = attribute(C, r) if r['status'] == 'raise' else None
     return (s is not None and s['id'] == site_id and in_class(k.get('class_predicate'), r)), r
@@ -629,15 +644,31 @@ def run(rep):
     if 'crash' in F: rep.errors.append('native facts crashed: ' + F['crash'] + ' ' + F.get('trace', '')[-300:]); return
     # ---- bounded stand-in through the public API
     specs, rids, fails, nruns = run_standin(rep, C, tier, seed); lap('stand-in')
-    reached = {}; unattributed = []
+    reached = {}; unattributed = []; litert = []
     for rid, spec, r in fails:
         r['seed'] = seed; r['n_samples'] = 1 + seed % 2
         s = attribute(C, r) if r['status'] == 'raise' else None
-        if s is None: unattributed.append((rid, spec, r))
+        if r['status'] == 'interp': litert.append((rid, spec, r))
+        elif r['status'] == 'checker-crash': rep.errors.append(f'stand-in harness crashed on {rid} {json.dumps(spec)}: {r.get("exc")}: {r.get("msg")}')
+        elif s is None: unattributed.append((rid, spec, r))
         else: reached.setdefault(s['id'], []).append((rid, spec, r))
+    # deterministic probe of the runtime step on degenerate calibration ranges (a tensor that is exactly zero): fixed data seed 7
+    dfails, druns = M.run_many(rids, M.DEGENERATE, n_samples=1, seed=7)
+    for rid, spec, r in dfails:
+        r['seed'] = 7; r['n_samples'] = 1
+        if r['status'] == 'interp': litert.append((rid, spec, r))
+        else:
+            s = attribute(C, r) if r['status'] == 'raise' else None
+            if s is None: unattributed.append((rid, spec, r))
+            else: reached.setdefault(s['id'], []).append((rid, spec, r))
+    lap('degenerate-range probe')
     # sample recipe, separately
     sample_ids = [r for r in M.recipe_ids(True) if r not in rids]
     sfails, sruns = M.run_many(sample_ids, [s for s in specs if len(s['ops']) <= 2], n_samples=1, seed=seed, with_classes=True) if sample_ids else ([], 0); lap('stand-in (sample recipe)')
+    for rid, spec, r in sfails:
+        r['seed'] = seed; r['n_samples'] = 1
+        if r['status'] == 'interp': litert.append((rid, spec, r))
+    sfails = [f for f in sfails if f[2]['status'] != 'interp']
     # ---- z3: dtype tables (re-run of the contracts of props/graphcommon.dtype_tables under this property)
     from props import graphcommon as gc
     zobs = gc.dtype_tables(rep, 'C08'); z3_tables = {}
@@ -645,6 +676,11 @@ def run(rep):
         if 'only-above-64' in o.id: z3_tables['raises-only-above-64'] = o.status
     lap('z3 dtype tables')
     # ---- one obligation per census site
+    for rel, qual in [GATE_LOAD, GATE_RESOLVE, (RM, 'RecipeManager.add_quantization_config'), (PG, '_compatible_tensor_params'), (PG, '_compatible_tensor_transformation_params'), (PG, '_same_tensor_params_except_id'),
+                      (MMU, 'get_tensor_transformation_params'), (CAL, 'Calibrator.calibrate'), (CAL, 'Calibrator._initialize_model_qsvs'), (QZ, 'Quantizer.__init__'), (QZ, 'Quantizer.load_quantization_recipe'), (QZ, 'Quantizer.calibrate'),
+                      (TFU, 'buffer_to_tensors'), ('transformation_performer.py', 'TransformationPerformer._apply_single_transformation')]:
+        try: rep.fn(core.Fn(rel, qual))
+        except LookupError as e: rep.errors.append(f'function used by an argument not found: {e}')
     obs, listed, X = decide_sites(C, F, reached, z3_tables, rep)
     kf_done = set()
     for ob in obs:
@@ -688,6 +724,16 @@ def run(rep):
     rep.add_bounded('Quantizer(model, shipped recipe) -> calibrate (when needed) -> quantize -> LiteRT allocate + invoke (real public API; any exception is a failure)',
                     f'{len(rids)} shipped recipes {rids} x {len(specs)} generated models; {M.SCOPE}; calibration with {1 + seed % 2} seeded random sample(s); seed {seed}', nruns, len(counted),
                     note=f'failures by census site: {by_site}' + (f'; failures at {sorted(kf_sites)} belong to listed known findings and are excluded' if kf_sites else ''))
+    # the runtime step: belongs to C01 (runtime-loadable result), NOT to the statement of C08 (quantize() returns and raises nothing): reported, not a violation here
+    rep.add_bounded('LiteRT allocate_tensors + invoke on the model returned by quantize() (clause of C01, exercised here as a by-product; failures are reported as NOTE, they are not violations of C08)',
+                    f'every successful pipeline run of the stand-in above plus {len(M.DEGENERATE)} degenerate-range models {M.DEGENERATE} x shipped recipes with fixed calibration data (seed 7)', (nruns - len(fails)) + druns, len(litert),
+                    note='; '.join(f'{a} {json.dumps(b)} (data seed {r.get("seed")}): {r.get("msg")}' for a, b, r in litert[:4]))
+    if litert:
+        a, b, r = litert[0]
+        rep.notes.append(f'RUNTIME (C01, not C08): {len(litert)} model(s) returned by quantize() make LiteRT fail / abort in allocate_tensors+invoke, e.g. {a} {json.dumps(b)} with calibration data seed {r.get("seed")}: {r.get("msg")}')
+        pob = core.Ob('C08/note.litert-refuses-returned-model', None, 'bounded-native', core.REFUTED, 0.0, clause='(C01) LiteRT allocates and invokes the model returned by quantize()')
+        rep.extra['litert_failure_replay'] = rep.write_replay(pob, dict(confirmed=True, inputs=dict(level='api', recipe=a, spec=b, n_samples=r.get('n_samples', 1), seed=r.get('seed', 0)), observed=r,
+                                                              more=[dict(recipe=x, spec=y, seed=z.get('seed')) for x, y, z in litert[1:6]]))
     sb = {}
     for rid, spec, r in sfails:
         s = attribute(C, r); sb[(s or {}).get('id', 'unattributed')] = sb.get((s or {}).get('id', 'unattributed'), 0) + 1
@@ -702,7 +748,7 @@ def run(rep):
     # sites that are not obligations
     hit_listed = [s['id'] for s in listed if s['id'] in reached]
     rep.add_bounded('unreached-in-bounded-search: raise sites with NO unreachability argument (not obligations)',
-                    'sites: ' + '; '.join(f'{s["id"]} [{UNREACHED.get(s["fn"]) or UNREACHED.get((s["fn"][0], s["fn"][1] + "@" + str(s["ordinal"])))}]' for s in listed) +
+                    'sites: ' + '; '.join(f'{s["id"]} [{UNREACHED.get(s["fn"]) or UNREACHED.get((s["fn"][0], s["fn"][1] + "@" + str(s["ordinal"]))) or "guard depends on the composition of all consumers of a tensor; reachable on the pinned tree (known finding), not reached by this run"}]' for s in listed) +
                     '. Evidence: never raised in the stand-in above nor in the one-operator materialisation runs', nruns + sum(1 for m in F['mini'] if m.get('ok')), len(hit_listed))
     for sid in hit_listed:
         rid, spec, r = reached[sid][0]
@@ -719,17 +765,21 @@ def run(rep):
     rep.cover('registry dispatch resolved from source (materialize functions on the call tree)', any('materialize_' in t for tg in dyn.values() for t in tg))
     rep.cover('the resolution-time support check is enclosed in try/except ValueError', (AMA, 'AlgorithmManagerApi.check_op_quantization_config') not in C.reach_escaping('ValueError', cut={GATE_LOAD}))
     rep.cover('stand-in: some pipelines succeed', nruns - len(fails) > 0)
-    rep.cover('some shipped recipe leaves an op key of the table unquantized (the "*" fallback is exercised)', any(row['']['alg'] == 'no_quantize' for rid in rids for k, row in F['resolution'][rid].items() if k in F['possible_op_keys']))
-    rep.cover('every shipped recipe quantizes FULLY_CONNECTED', all(F['resolution'][rid]['FULLY_CONNECTED']['']['alg'] != 'no_quantize' for rid in rids))
-    rep.cover('models in the stand-in satisfy the normal form of Pre8', all(M.normal_form(M.build(s)) for s in specs[:50]))
+    rep.cover('some shipped recipe leaves an op key of the table unquantized (the "*" fallback is exercised)', any(row[''].get('alg') == 'no_quantize' for rid in rids for k, row in F['resolution'].get(rid, {}).items() if k in F['possible_op_keys']))
+    rep.cover('every shipped recipe quantizes FULLY_CONNECTED', all(F['resolution'].get(rid, {}).get('FULLY_CONNECTED', {}).get('', {}).get('alg', 'no_quantize') != 'no_quantize' for rid in rids))
+    rep.cover('models in the stand-in satisfy the normal form of Pre8', all(M.normal_form(M.build(s)) for s in specs[::max(1, len(specs) // 200)]))
     # ---- canaries
     canaries(rep, C, F, specs, rids, z3_tables); lap('canaries')
     # ---- evidence
     rep.extra['census'] = dict(functions_on_call_trees=len(C.reach), sites=len(C.sites), explicit_raise=sum(1 for s in C.sites if s['kind'] == 'raise'), list_remove=sum(1 for s in C.sites if s['kind'] == 'remove'),
                                obligations=len(obs), listed_unreached=[s['id'] for s in listed], roots=[f'{r[0]}:{r[1]}' for r in C.roots],
                                by_backend={b: sum(1 for o in obs if o.backend == b) for b in sorted({o.backend for o in obs})})
-    rep.extra['resolution_table'] = {rid: {k: row['']['alg'] for k, row in tab.items()} for rid, tab in F['resolution'].items()}
+    rep.extra['resolution_table'] = {rid: {k: row[''].get('alg', 'ERROR') for k, row in tab.items()} for rid, tab in F['resolution'].items()}
     rep.extra['phases_s'] = ph
+    whole_lock = core.load_json(core.LOCK_PATH, {})
+    c10 = [i for i in whole_lock.get('C10', {}) if '/callsite.' in i]
+    rep.extra['cited'] = dict(C10_callsite_obligations_in_lock=len(c10), C03_family_i=F.get('c03_admitted'))
+    if not c10: rep.notes.append('the calibrated-names clause of Pre8 cites the relational call-site obligations of C10; none is present in obligations.lock.json')
     rep.assume('Pre8 as stated in the docstring of props/C08.py (recipe / model / calib clauses); obligations with backend `precondition` hold BECAUSE of Pre8 and prove nothing about models outside it')
     rep.assume('only explicit `raise` statements and list.remove calls are census sites; other implicitly raising operations (subscripts, dict look-ups, next(iter(..)), numpy shape errors, attribute access on None) '
                'are exercised by the bounded stand-in only')
@@ -837,13 +887,29 @@ def canaries(rep, C, F, specs, rids, z3_tables):
         except Exception as e: rep.canary('membership guard of the third list.remove dropped', False, f'crashed: {type(e).__name__}: {e}')
     else: rep.canary('membership guard of the third list.remove dropped', False, 'mutation site not found (stale canary)')
 
+    # (f), (g): census-only mutants of the syntactic side of two arguments
+    for name, rel, a_, b_, pick in [
+        ('ParamsGenerator.__init__: the float-model test replaced by another test (guard no longer a clause of Pre8)', PG, 'if not tfl_flatbuffer_utils.is_float_model(self.flatbuffer_model):', 'if len(self.flatbuffer_model.subgraphs) > 1:',
+         lambda x: x.site['fn'] == (PG, 'ParamsGenerator.__init__')),
+        ('generate_quantization_parameters: registry asked for a fixed op key instead of the resolved one', PG, '              algorithm_name,\n              op_key,\n              qtyping.QuantizeMode.MATERIALIZE,', '              algorithm_name,\n              _OpName.FULLY_CONNECTED,\n              qtyping.QuantizeMode.MATERIALIZE,',
+         lambda x: x.site['fn'] in DISPATCH_FNS)]:
+        src = core.read_source(rel)
+        if a_ not in src: rep.canary(name, False, 'mutation site not found (stale canary)'); continue
+        try:
+            C2 = CC.Census({rel: src.replace(a_, b_, 1)})
+            for s in C2.sites: s['end'] = getattr(s['node'], 'end_lineno', s['line'])
+            obs2, _, _ = decide_sites(C2, F, {}, z3_tables); o = [x for x in obs2 if pick(x)]
+            rep.canary(name, bool(o) and all(x.status != core.PROVED for x in o), str([(x.id.split('/', 1)[1], x.status) for x in o]))
+        except Exception as e: rep.canary(name, False, f'crashed: {type(e).__name__}: {e}')
+
 # ================================================================================================ replay
 def replay(payload):
     inp = payload.get('inputs') or {}; print('replaying', payload.get('obligation'), json.dumps(inp, default=str)[:400])
     if inp.get('level') == 'api':
         from replay import c08_models as M
-        r = M.run_pipeline(inp['recipe'], M.norm(inp['spec']), inp.get('n_samples', 1), inp.get('seed', 0)); print(r)
-        return 1 if r['status'] != 'ok' else 0
+        fails, n = M.run_many([inp['recipe']], [M.norm(inp['spec'])], inp.get('n_samples', 1), inp.get('seed', 0))      # in a child process: LiteRT may abort
+        print(fails or 'ok')
+        return 1 if fails else 0
     if inp.get('level') == 'function':
         from replay import c08_native as NV
         F = NV.facts(sample=True, want_lines=False)
